@@ -37,6 +37,7 @@ type c18Gen struct {
 	hasType           bool
 	lits              []string
 	hasPkgs, hasNamed bool
+	hasShape, hasPrint bool
 	n                 int
 }
 
@@ -136,6 +137,41 @@ func (g *c18Gen) step() {
 		}
 		g.add("if %s() >= 0 { q := &T{A: %d, S: \"b\"}; %s += q.A + q.Double() }", f, g.r.Intn(9), v)
 		g.add("for i := 0; i < 2; i++ { q := &T{A: i}; q.Add(%s()); %s += q.A }", f, v)
+	case k < 9 && g.r.Chance(1, 6) && !g.hasShape:
+		// a package and another package that imports it, imported by separate statements: the later import
+		// meets the first package's types again
+		g.hasShape = true
+		g.add("import \"shape\"")
+		b1 := g.name("bx")
+		g.add("%s := shape.New(%d)", b1, g.r.Intn(9))
+		g.add("%s.Tag = \"first\"", b1)
+		g.add("import \"draw\"")
+		b2 := g.name("bx")
+		g.add("%s := draw.Make(%d)", b2, g.r.Intn(9))
+		g.add("fmt.Println(%s, %s, %s.Area(), draw.Count())", b1, b2, b1)
+		g.add("%s := &shape.Box{H: 4}", g.name("bx"))
+		g.add("fmt.Println(shape.New(1), %s.W+%s.H)", b2, b1)
+	case k < 9 && g.r.Chance(1, 6) && !g.hasPrint:
+		// a package-level function named like the predeclared print: from its declaration on the name is the package's
+		g.hasPrint = true
+		g.add("func print(a int) int { return a*3 + 1 }")
+		g.add("println(print(%d))", g.r.Intn(9))
+		v := g.name("v")
+		g.add("%s := print(%d) + print(1)", v, g.r.Intn(9))
+		g.ints, g.globals = append(g.ints, v), append(g.globals, v)
+	case k < 9 && g.r.Chance(1, 4):
+		// constant blocks that count with iota (each block counts from zero)
+		a, b, c := g.name("c"), g.name("c"), g.name("c")
+		switch g.r.Intn(3) {
+		case 0:
+			g.add("const (\n\t%s = iota\n\t%s\n\t%s\n)", a, b, c)
+		case 1:
+			g.add("const (\n\t%s = iota * 10\n\t%s\n\t%s\n)", a, b, c)
+		default:
+			g.add("const (\n\t%s = 1 << iota\n\t%s\n\t%s\n)", a, b, c)
+		}
+		g.add("println(%s, %s, %s)", a, b, c)
+		g.ints = append(g.ints, b, c)
 	case k < 9 && g.r.Chance(1, 5) && !g.hasPkgs:
 		// script packages imported by separate statements (two of them share their package name)
 		g.hasPkgs = true
@@ -388,6 +424,8 @@ var c18FS = core.MapFS(map[string]string{
 	"wire/codec/codec.go": "package codec\n\nvar Tag = \"wire\"\n\nfunc Size(n int) int {\n\treturn n + 1\n}\n",
 	"disk/codec/codec.go": "package codec\n\nvar Tag = \"disk\"\n\nfunc Size(n int) int {\n\treturn n * 4\n}\n",
 	"util/util.go":        "package util\n\nvar Count = 10\n\nfunc Inc() int {\n\tCount++\n\treturn Count\n}\n",
+	"shape/shape.go":      "package shape\n\ntype Box struct {\n\tW int\n\tH int\n\tTag string\n}\n\nfunc (b *Box) Area() int {\n\treturn b.W * b.H\n}\n\nfunc New(w int) *Box {\n\treturn &Box{W: w, H: w + 1, Tag: \"box\"}\n}\n",
+	"draw/draw.go":        "package draw\n\nimport \"shape\"\n\nvar made int\n\nfunc Make(n int) *shape.Box {\n\tmade++\n\tb := shape.New(n)\n\tb.Tag = \"drawn\"\n\treturn b\n}\n\nfunc Count() int {\n\treturn made\n}\n",
 })
 
 func c18Run(p c18Prog, cuts []int) (c18Obs, bool) {
